@@ -43,6 +43,13 @@ pub fn norm(e: &Expr) -> J {
         Expr::Between { expr, negated, low, high } => node("between", negated.to_string(), vec![norm(expr), norm(low), norm(high)]),
         Expr::Like { negated, expr, pattern, .. } => node("like", negated.to_string(), vec![norm(expr), norm(pattern)]),
         Expr::Function(f) if f.over.is_none() && f.filter.is_none() => node("fn", f.name.to_string().to_uppercase(), fn_args(f)),
+        Expr::Trim { expr, trim_where: None, trim_what: None, trim_characters: None } => node("fn", "TRIM".into(), vec![norm(expr)]),
+        Expr::Substring { expr, substring_from, substring_for, .. } => {
+            let mut a = vec![norm(expr)];
+            if let Some(x) = substring_from { a.push(norm(x)); }
+            if let Some(x) = substring_for { a.push(norm(x)); }
+            node("fn", "SUBSTRING".into(), a)
+        }
         Expr::Floor { expr, .. } => node("fn", "FLOOR".into(), vec![norm(expr)]),
         Expr::Ceil { expr, .. } => node("fn", "CEIL".into(), vec![norm(expr)]),
         Expr::Cast { expr, data_type, .. } => node("cast", data_type.to_string(), vec![norm(expr)]),
